@@ -170,7 +170,11 @@ def _run_variant(args):
     old_jobs = os.environ.get('PFST_VERIF_JOBS')
     os.environ['PFST_VERIF_JOBS'] = '1'          # no nested worker pools
     try:
-        code, ctx = engine.run_property(prop, mod, 'quick', repo=Repo(src), write=False, quiet=True)
+        try:
+            variant = Repo(src)
+        except Exception:
+            return 'stale', []           # the variant does not even parse any more (its context was edited since it was written)
+        code, ctx = engine.run_property(prop, mod, 'quick', repo=variant, write=False, quiet=True)
     finally:
         if old_jobs is None:
             os.environ.pop('PFST_VERIF_JOBS', None)
